@@ -422,7 +422,7 @@ func spawn(c *verdict.Ctx, dir, stage, arg string, race bool, timeout time.Durat
 			res.stderr = full
 		}
 	}
-	if stage == "n3" || stage == "n3mem" || stage == "n3init" || stage == "n3flood" {
+	if stage == "n3" || stage == "n3mem" || stage == "n3init" || stage == "n3flood" || stage == "n3volume" {
 		if b, err := os.ReadFile(errPath); err == nil {
 			for k, v := range recoveredPanics(string(b)) {
 				res.rec.Counts["n3.panic_recovered_by_connection@"+k] += int64(v)
@@ -523,6 +523,8 @@ func childMain(c *verdict.Ctx, stage string) int {
 		stageN3Init(c, r, arg)
 	case "n3flood":
 		stageN3Flood(c, r, arg)
+	case "n3volume":
+		stageN3Volume(c, r, arg)
 	case "n3mem":
 		stageN3Mem(c, r, arg)
 	default:
@@ -611,6 +613,7 @@ func Run(c *verdict.Ctx) int {
 	c.Rule = "N1: a run = (transport, channel set incl. ids >= 0x80, rates, sender schedule) and is non-trivial when both directions accepted and delivered messages on >= 2 channels; " +
 		"N1-park: a case = (burst shape, channel priorities, queue capacities, message sizes around multiples of the packet payload) in which >= 2 messages were accepted and then nothing more was sent; " +
 		"N2: a case = (packet class, parameters, channel capacities) executed against a real MConnection; " +
+		"N3-volume: a case = (non-consensus channel, message kind, > 1100 well-formed messages) after which the peer could be removed, an honest peer's message was consumed and all probes passed; " +
 		"N3-flood: a case = (number of concurrently flooding peers, messages per peer, mix) whose flood was worked off completely while the honest co-validator kept voting; " +
 		"N3-lite: an input = (reactor channel, peer state, message class, bytes) that was handed to a live reactor's Receive path by a real switch while the node stood in a recorded consensus step (new-height incl. the initial height before round 0, propose, prevote, precommit); distinct by descriptor hash"
 	c.Assume(
